@@ -58,27 +58,48 @@ impl fmt::Debug for FsWatcherBuilder {
     }
 }
 
-fn id_of_path(id_builder: &mut IdBuilder, root: &Path, path: &Path) -> Option<OwnedDirEntry> {
+/// Translates a path back to the entry it designates under `root` (this is the
+/// inverse of `path_of`). `is_dir` tells whether the path is, or was, a
+/// directory.
+fn id_of_path(
+    id_builder: &mut IdBuilder,
+    root: &Path,
+    path: &Path,
+    is_dir: bool,
+) -> Option<OwnedDirEntry> {
     id_builder.reset();
 
-    for comp in path.parent()?.strip_prefix(root).ok()?.components() {
+    let mut comps = Vec::new();
+    for comp in path.strip_prefix(root).ok()?.components() {
         match comp {
-            path::Component::Normal(s) => id_builder.push(s.to_str()?)?,
-            path::Component::ParentDir => id_builder.pop()?,
+            path::Component::Normal(s) => comps.push(s.to_str()?),
+            path::Component::ParentDir => {
+                comps.pop()?;
+            }
             path::Component::CurDir => continue,
             _ => return None,
         }
     }
 
-    // Build the id of the file.
-    id_builder.push(path.file_stem()?.to_str()?)?;
-    let id = id_builder.join();
+    // The last component is the name of the entry, the other ones are the
+    // directories that contain it.
+    let Some((name, dirs)) = comps.split_last() else {
+        // This is the root directory itself
+        return Some(OwnedDirEntry::Directory(id_builder.join()));
+    };
 
-    let entry = if path.is_dir() {
-        OwnedDirEntry::Directory(id)
+    for dir in dirs {
+        id_builder.push(dir)?;
+    }
+
+    let entry = if is_dir {
+        id_builder.push(name)?;
+        OwnedDirEntry::Directory(id_builder.join())
     } else {
-        let ext = crate::utils::extension_of(path)?.into();
-        OwnedDirEntry::File(id, ext)
+        let name = Path::new(name);
+        id_builder.push(name.file_stem()?.to_str()?)?;
+        let ext = crate::utils::extension_of(name)?.into();
+        OwnedDirEntry::File(id_builder.join(), ext)
     };
 
     Some(entry)
@@ -123,23 +144,40 @@ impl notify::EventHandler for NotifyEventHandler {
             Ok(event) => {
                 log::trace!("Received filesystem event: {event:?}");
 
+                // A removed entry cannot be inspected anymore, but the event can
+                // tell what it was
+                let removed_dir = matches!(
+                    event.kind,
+                    notify::EventKind::Remove(notify::event::RemoveKind::Folder)
+                );
+
+                // The content of the parent directory changes when an entry is
+                // created, removed or renamed
+                let with_parent = match event.kind {
+                    notify::EventKind::Create(_)
+                    | notify::EventKind::Remove(_)
+                    | notify::EventKind::Modify(notify::event::ModifyKind::Name(_)) => true,
+                    notify::EventKind::Any | notify::EventKind::Modify(_) => false,
+                    notify::EventKind::Access(_) | notify::EventKind::Other => return,
+                };
+
                 for path in event.paths {
-                    let paths = match event.kind {
-                        notify::EventKind::Any | notify::EventKind::Modify(_) => vec![&*path],
-                        notify::EventKind::Create(_) => match path.parent() {
-                            Some(parent) => vec![&path, parent],
-                            None => vec![&*path],
-                        },
-                        notify::EventKind::Remove(_) => match path.parent() {
-                            Some(parent) => vec![parent],
-                            None => vec![],
-                        },
-                        notify::EventKind::Access(_) | notify::EventKind::Other => return,
-                    };
-                    let ids = paths
-                        .into_iter()
-                        .flat_map(|p| self.roots.iter().map(move |r| (p, r)))
-                        .filter_map(|(path, root)| id_of_path(&mut self.id_builder, root, path));
+                    let is_dir = removed_dir || path.is_dir();
+                    let mut ids = Vec::new();
+
+                    for root in &self.roots {
+                        let Some(id) = id_of_path(&mut self.id_builder, root, &path, is_dir)
+                        else {
+                            continue;
+                        };
+                        ids.push(id);
+
+                        if with_parent {
+                            if let Some(parent) = path.parent() {
+                                ids.extend(id_of_path(&mut self.id_builder, root, parent, true));
+                            }
+                        }
+                    }
 
                     if self.events.send_multiple(ids).is_err() {
                         drop(self.watcher.take());
@@ -187,7 +225,7 @@ pub mod verif {
 
     /// The real path -> entry translation used by the watcher.
     pub fn id_of_path(root: &Path, path: &Path) -> Option<OwnedDirEntry> {
-        super::id_of_path(&mut Default::default(), root, path)
+        super::id_of_path(&mut Default::default(), root, path, path.is_dir())
     }
 
     /// The real `notify` event handler, without an OS watcher attached.
